@@ -64,6 +64,10 @@ func c08Main(args []string) int {
 			c08EphemeralSub(c, d)
 		case "emptybusy":
 			c08EmptyBusy(c, d)
+		case "emptydeferred":
+			c08EmptyDeferred(c, d)
+		case "mpubdelete":
+			c08MpubDelete(c, d)
 		}
 		os.RemoveAll(d)
 	}
@@ -705,4 +709,182 @@ func c08EmptyBusy(c *c08Case, dir string) {
 		c.failf("[C05] %v", err)
 	}
 	stopped = true
+}
+
+// c08EmptyDeferred: /channel/empty lands while a requeue-with-delay (or the hand-over of a deferred publish) is between
+// its two steps -- entered in the channel's table of deferred messages, not yet in its timer queue.  The Empty is answered;
+// what it discarded is not delivered afterwards.
+func c08EmptyDeferred(c *c08Case, dir string) {
+	g := newGateCtl()
+	verif.SetGate(g.fn)
+	defer verif.SetGate(nil)
+	defer g.releaseAll()
+	nd, err := startNode(dir, nil)
+	if err != nil {
+		c.Incon = err.Error()
+		return
+	}
+	defer nd.stop(20 * time.Second)
+	nd.post("/topic/create?topic=t", nil)
+	nd.post("/channel/create?topic=t&channel=c", nil)
+	tp, err := nd.N.GetExistingTopic("t")
+	if err != nil {
+		c.Incon = err.Error()
+		return
+	}
+	ch, err := tp.GetExistingChannel("c")
+	if err != nil {
+		c.Incon = err.Error()
+		return
+	}
+	point := "sdt.afterMapPush|" + nsqd.VerifName(ch)
+	cn, err := dial(nd.TCP, "ed-con")
+	if err != nil {
+		c.Incon = err.Error()
+		return
+	}
+	defer cn.close()
+	if _, err := cn.identify(map[string]interface{}{"output_buffer_timeout": 25}); err != nil {
+		c.Incon = err.Error()
+		return
+	}
+	if err := cn.sub("t", "c"); err != nil {
+		c.Incon = err.Error()
+		return
+	}
+	cn.cmd("RDY", "", "1")
+	for round := 0; round < 3; round++ {
+		viaDefer := (int(c.Seed)+round)%2 == 1
+		body := []byte(fmt.Sprintf("ed-%d", round))
+		if viaDefer {
+			// a deferred publish: the topic's pump hands it to the channel's deferred queue
+			g.arm(point)
+			if st, _, err := nd.post("/pub?topic=t&defer=150", body); err != nil || st != 200 {
+				c.Incon = "pub"
+				return
+			}
+		} else {
+			if st, _, err := nd.post("/pub?topic=t", body); err != nil || st != 200 {
+				c.Incon = "pub"
+				return
+			}
+			f, ok := cn.next(5 * time.Second)
+			if !ok || f.Type != 2 {
+				c.Incon = "the message did not arrive"
+				return
+			}
+			g.arm(point)
+			cn.cmd("REQ", f.ID, "150")
+		}
+		select {
+		case <-g.arrived:
+		case <-time.After(5 * time.Second):
+			c.Incon = "the deferral did not reach its yield point"
+			return
+		}
+		done := make(chan int, 1)
+		go func() {
+			st, _, _ := nd.post("/channel/empty?topic=t&channel=c", nil)
+			done <- st
+		}()
+		select {
+		case st := <-done:
+			if st != 200 {
+				c.failf("/channel/empty answered %d", st)
+			}
+		case <-time.After(5 * time.Second):
+			// (it waits for the deferral: let that go on, then it must come back)
+			g.release(point)
+			select {
+			case <-done:
+			case <-time.After(10 * time.Second):
+				c.failf("/channel/empty was not answered within 15 s while a deferral was between its two steps")
+				return
+			}
+		}
+		g.release(point)
+		c.Ops++
+		// the deferral's delay (150 ms) passes: nothing that the Empty discarded comes out of the channel
+		if f, ok := cn.next(900 * time.Millisecond); ok && f.Type == 2 {
+			c.failf("message %q (attempt %d) was in the channel's table of deferred messages when /channel/empty was answered (the %s was between its two steps); it was delivered afterwards", string(f.Body), f.Attempts, map[bool]string{true: "hand-over of a deferred publish", false: "requeue with a delay"}[viaDefer])
+			cn.cmd("FIN", f.ID, "")
+		}
+		if cs, _ := chanStat(nd, "t", "c"); cs != nil && (cs.Depth != 0 || cs.InFlightCount != 0 || cs.DeferredCount != 0) {
+			c.failf("after /channel/empty and a quiet second the channel reports depth=%d in_flight=%d deferred=%d", cs.Depth, cs.InFlightCount, cs.DeferredCount)
+		}
+	}
+}
+
+// c08MpubDelete: a topic is deleted while a large MPUB to it is still being written (most of it to the topic's disk queue).
+// The publisher may be refused; the deletion is answered; no file of the topic is left and a topic of that name starts empty.
+func c08MpubDelete(c *c08Case, dir string) {
+	nd, err := startNode(dir, func(o *nsqd.Options) { o.MemQueueSize = 100; o.MaxMsgSize = 1 << 20; o.MaxBodySize = 64 << 20 })
+	if err != nil {
+		c.Incon = err.Error()
+		return
+	}
+	defer nd.stop(20 * time.Second)
+	for round := 0; round < 3; round++ {
+		topic := fmt.Sprintf("md%d", round)
+		nd.post("/topic/create?topic="+topic, nil)
+		var buf bytes.Buffer
+		n := 60000
+		binary.Write(&buf, binary.BigEndian, int32(n))
+		for j := 0; j < n; j++ {
+			buf.Write(lenPrefixed([]byte(fmt.Sprintf("md-%d-%05d-................................", round, j))))
+		}
+		pubDone := make(chan struct{})
+		go func() {
+			nd.post("/mpub?topic="+topic+"&binary=true", buf.Bytes())
+			close(pubDone)
+		}()
+		// once a good part of the batch sits in the topic's queue ...
+		for i := 0; i < 2000; i++ {
+			if st, _, err := nd.stats(""); err == nil {
+				d := int64(0)
+				for _, ts := range st.Topics {
+					if ts.Name == topic {
+						d = ts.Depth
+					}
+				}
+				if d > 2000 {
+					break
+				}
+			}
+			select {
+			case <-pubDone:
+				i = 2000
+			default:
+			}
+			time.Sleep(time.Millisecond)
+		}
+		st, _, err := nd.post("/topic/delete?topic="+topic, nil)
+		c.Ops++
+		if err != nil || (st != 200 && st != 404) {
+			c.failf("/topic/delete during a large MPUB: %v %d", err, st)
+			return
+		}
+		select {
+		case <-pubDone:
+		case <-time.After(30 * time.Second):
+			c.failf("the MPUB was not answered within 30 s of the topic's deletion")
+			return
+		}
+		time.Sleep(50 * time.Millisecond)
+		if st == 200 {
+			if left := filesFor(dir, topic+".diskqueue"); len(left) > 0 {
+				c.failf("topic %s was deleted while a %d-message MPUB to it was being written; files of it are still there: %v", topic, n, left)
+			}
+			nd.post("/topic/create?topic="+topic, nil)
+			time.Sleep(30 * time.Millisecond)
+			if st2, _, err := nd.stats(""); err == nil {
+				for _, ts := range st2.Topics {
+					if ts.Name == topic && ts.Depth != 0 {
+						c.failf("topic %s was deleted (during a large MPUB) and created again: it starts with %d messages", topic, ts.Depth)
+					}
+				}
+			}
+			nd.post("/topic/delete?topic="+topic, nil)
+		}
+	}
 }
